@@ -42,6 +42,11 @@ type ProxyCase struct {
 	// JSON gateway).  Not a number between 0 and 1: the request has to be refused, and no store
 	// may die of it.
 	NaNQuantile bool `json:"nan_quantile,omitempty"`
+	// BadUTF8: three more documents (built at run time: case files are JSON) whose svc values
+	// are not valid UTF-8 - "a\xff" once, "a\xfe" twice - and a count by svc as the only
+	// aggregation.  Keyword tokens keep their bytes; the finished asynchronous search has to
+	// report the same groups as the synchronous one.
+	BadUTF8 bool `json:"bad_utf8,omitempty"`
 }
 
 func genProxy(t *rapid.T) ProxyCase {
@@ -61,6 +66,7 @@ func genProxy(t *rapid.T) ProxyCase {
 	c.Style = gen.Style(t)
 	c.Aggs = gen.AggSpecs(t, 2)
 	c.NaNQuantile = rapid.IntRange(0, 19).Draw(t, "nanquantile") == 19
+	c.BadUTF8 = !c.NaNQuantile && rapid.IntRange(0, 9).Draw(t, "badutf8") == 9
 	c.PageOffset = rapid.IntRange(0, len(c.Corpus)+1).Draw(t, "pageoffset")
 	c.PageSize = rapid.IntRange(0, len(c.Corpus)+1).Draw(t, "pagesize")
 	return c
@@ -68,6 +74,19 @@ func genProxy(t *rapid.T) ProxyCase {
 
 func runProxy(c ProxyCase) (evid.Result, error) {
 	res := evid.Result{}
+	if c.BadUTF8 {
+		at := c.Corpus[0].ID.MID
+		c.Corpus = append(model.Corpus{}, c.Corpus...)
+		for i, v := range []string{"a\xff", "a\xfe", "a\xfe"} {
+			c.Corpus = append(c.Corpus, model.Doc{ID: model.ID{MID: at, RID: 1<<59 + uint64(i)}, Body: []byte(fmt.Sprintf(`{"i":%d}`, i)),
+				Toks: []model.Tok{{F: "_all_", V: ""}, {F: "_exists_", V: "svc"}, {F: "svc", V: v}}})
+			c.ShardOf = append(append([]int{}, c.ShardOf...), 0)
+			c.FracOf = append(append([]int{}, c.FracOf...), i%2)
+		}
+		c.R.Q, c.R.From, c.R.To = model.All(), 0, 1<<41
+		c.Aggs = []model.AggSpec{{Func: "count", GroupBy: "svc"}}
+		res.Labels = append(res.Labels, "group-values-with-invalid-utf8")
+	}
 	cl, err := harness.NewCluster(evid.ScratchDir("c19p"), c.Shards, 1, harness.StoreOpts{}, nil, true)
 	if err != nil {
 		return res, err
